@@ -33,6 +33,12 @@ except:
 
 
 def toposort2(data):
+    """Yields the items of ``data`` (a dict of item -> set of dependencies) in
+    tiers, dependencies first. A tier is sorted by ``repr``; items with the same
+    ``repr`` keep the order in which ``data`` and its dependency sets list
+    them, so the result does not depend on hash values when ordered containers
+    are passed in."""
+
     if len(data) == 0:
         return
 
@@ -40,15 +46,20 @@ def toposort2(data):
         v.discard(k) # Ignore self dependencies
 
     # add items that are listed as dependencies but not as dependents to data
-    extra_items_in_deps = reduce(set.union, data.values()) - set(data.keys())
-    data.update(dict([(item,set()) for item in extra_items_in_deps]))
+    extra_items_in_deps = []
+    for v in data.values():
+        for item in v:
+            if item not in data and item not in extra_items_in_deps:
+                extra_items_in_deps.append(item)
+    data.update([(item, set()) for item in extra_items_in_deps])
 
     while True:
-        ordered = set(item for item,dep in data.items() if len(dep) == 0)
+        ordered = [item for item, dep in data.items() if len(dep) == 0]
         if len(ordered) == 0:
             break
         yield sorted(ordered, key=lambda x:repr(x))
-        data = dict([(item, (dep - ordered)) for item,dep in data.items()
-                                                        if item not in ordered])
+        done = set(ordered)
+        data = dict([(item, (dep - done)) for item,dep in data.items()
+                                                           if item not in done])
 
     assert not data, "A cyclic dependency exists amongst\n%s" % pformat(data)
